@@ -147,6 +147,8 @@ pub struct World {
     pub in_inline: bool,
     /// quiescences so far (mirrors the executor's counter)
     pub nq: usize,
+    /// threaded driver: written bytes are readable by the other side at once (no delivery steps)
+    pub direct: bool,
 }
 
 pub struct ParkedSend {
@@ -179,6 +181,7 @@ impl World {
             inline_ping: [None, None],
             in_inline: false,
             nq: 0,
+            direct: false,
         }
     }
     pub fn log(&mut self, v: Value) {
@@ -554,6 +557,13 @@ impl SimIo {
         }
         if !g.dirs[d].discard {
             g.dirs[d].inflight.extend(&data[..n]);
+        }
+        if g.direct {
+            let b: Vec<u8> = g.dirs[d].inflight.drain(..).collect();
+            g.dirs[d].readable.extend(b);
+            if let Some(wk) = g.dirs[d].rwaker.take() {
+                wk.wake();
+            }
         }
         g.dirs[d].total_w += n as u64;
         g.rec.log_io(ep, "wr", json!({"t": "wr", "ep": EP[ep], "n": n}), false);
